@@ -12,8 +12,8 @@ vars == <<kind, ast, ch, mut>>
 
 WsQuick == {"", " ", "\n "}
 WsThorough == {"", " ", "\n ", "\t\n\t"}
-StylesQuick == {"min", "quoted", "brackets"}
-StylesThorough == {"min", "quoted", "brackets"}
+StylesQuick == {"min", "quoted", "brackets", "split"}
+StylesThorough == {"min", "quoted", "brackets", "split"}
 
 Val(s, q, b) == [s |-> s, q |-> q, bare |-> b]
 V1 == Val("v1", "v1", TRUE)
